@@ -189,9 +189,14 @@ class World(EventDispatcher):
             return False
 
         fringe = [component_type]
+        visited = set()
 
         while fringe:
             subtype = fringe.pop()
+            # With multiple inheritance a subtype can be reached twice
+            if subtype in visited:
+                continue
+            visited.add(subtype)
             fringe += type.__subclasses__(subtype)
 
             if subtype in self._entities[entity]:
@@ -261,9 +266,14 @@ class World(EventDispatcher):
             f'Entity ID must be hashble, found {entity}, which is not')
 
         fringe = [component_type]
+        visited = set()
 
         while fringe:
             subtype = fringe.pop()
+            # With multiple inheritance a subtype can be reached twice
+            if subtype in visited:
+                continue
+            visited.add(subtype)
 
             if subtype in self._entities.get(entity, {}):
                 return self._entities[entity][subtype]
@@ -378,9 +388,14 @@ class World(EventDispatcher):
 
         removed = None
         fringe = [component_type]
+        visited = set()
 
         while fringe:
             subtype = fringe.pop()
+            # With multiple inheritance a subtype can be reached twice
+            if subtype in visited:
+                continue
+            visited.add(subtype)
 
             if subtype in self._entities.get(entity, {}):
                 self._components[subtype].discard(entity)
@@ -484,9 +499,14 @@ class World(EventDispatcher):
             f'{processor_type} is not of a subtype of Processor')
 
         fringe = [processor_type]
+        visited = set()
 
         while fringe:
             subtype = fringe.pop()
+            # With multiple inheritance a subtype can be reached twice
+            if subtype in visited:
+                continue
+            visited.add(subtype)
 
             if subtype in self._processors:
                 removed = self._processors[subtype]
@@ -525,9 +545,14 @@ class World(EventDispatcher):
         If it exists. Subtypes are also checked.
         """
         fringe = [processor_type]
+        visited = set()
 
         while fringe:
             subtype = fringe.pop()
+            # With multiple inheritance a subtype can be reached twice
+            if subtype in visited:
+                continue
+            visited.add(subtype)
 
             if subtype in self._processors:
                 return self._processors[subtype]
